@@ -256,7 +256,7 @@ func (b *bodyCtx) knownNil(at ast.Node, want string) bool {
 	}
 	for leaf, val := range b.flow.CondsAt(cn) {
 		g := core.GuardOf(b.info, leaf, b.errs)
-		if g.Kind == "nil" && g.X != nil && exprKey(g.X) == want && val != g.Neg {
+		if (g.Kind == "nil" || g.Kind == "err") && g.X != nil && exprKey(g.X) == want && val != g.Neg {
 			return true
 		}
 	}
